@@ -106,6 +106,8 @@ def nontrivial(case):
 
 
 def tally(rep, case, impl_res, ans):
+    if case.get('spec') and case['spec']['n_channels'] == 1:
+        rep.count('single_channel_dataset')
     if case.get('spec'):
         rep.count('positions_dtype:' + (case['spec'].get('dtypes') or {}).get('channel_positions', 'float64'))
     rep.count('label:%r' % case.get('label', ''))
@@ -133,8 +135,8 @@ def gen(tier, rng):
             c = M.merge_case(rng, nprobes=2 + i % 2)
             yield dict(p=PID, probes=c['probes'], dirnames=c['dirnames'], factor=1, label=['', 'probe01'][i % 2])
             continue
-        spec = DC.dense_spec(rng, raw=(i % 3 != 2), feats=(i % 2 == 0), probes=(i % 5 == 0), empty=['none', 'last', 'middle', 'first'][i % 4],
-                             cmap=['identity', 'random'][i % 2])
+        spec = DC.dense_spec(rng, raw=(i % 3 != 2), feats=(i % 2 == 0) and i % 23 != 3, probes=(i % 5 == 0), empty=['none', 'last', 'middle', 'first'][i % 4],
+                             cmap=['identity', 'random'][i % 2], nc=(1 if i % 23 == 3 else None))      # also single-channel datasets
         if i % 4 == 1:
             spec['text_files'] = {'cluster_KSLabel.tsv': 'cluster_id\tKSLabel\n0\tgood\n1\tmua\n'}
         if i % 7 == 3:
